@@ -50,6 +50,8 @@ pub struct Alphabet {
     pub repay: bool,
     pub close_balance: bool,
     pub liquidate: bool,
+    /// a third party's receivership bracket (start, repay, withdraw, end) at two sizes with a fair repayment
+    pub receivership: bool,
     pub bankruptcy: bool,
     pub accrue: bool,
     /// the permissionless price-cache crank
@@ -89,6 +91,7 @@ impl Alphabet {
             repay: true,
             close_balance: true,
             liquidate: true,
+            receivership: false,
             bankruptcy: true,
             accrue: true,
             pulse: false,
@@ -300,6 +303,41 @@ impl Model for Hist {
                 }
             }
         }
+        if al.receivership {
+            for &lq in &al.users {
+                for &le in &al.users {
+                    if lq == le {
+                        continue;
+                    }
+                    let le_acct = act::cur_account(&self.w, s, le);
+                    let Some(eq) = crate::health::health(s, &le_acct, crate::health::Req::Equity) else { continue };
+                    for &ab in &al.banks {
+                        for &lb in &al.banks {
+                            if ab == lb {
+                                continue;
+                            }
+                            let (av, _, _) = self.position(s, le, ab);
+                            let (_, lv, _) = self.position(s, le, lb);
+                            if !(av >= rf::qi(8) && lv >= rf::qi(8)) {
+                                continue;
+                            }
+                            // dollar value per native unit of either position, from the reference valuation
+                            let unit = |bank: &solana_program::pubkey::Pubkey, liab: bool| -> Option<rf::Q> {
+                                eq.positions.iter().find(|p| p.bank == *bank && p.is_liability == liab && p.amount > rf::qzero() && p.value > rf::qzero()).map(|p| p.value.clone() / p.amount.clone())
+                            };
+                            let (Some(ua), Some(ul)) = (unit(&self.w.banks[ab].key, false), unit(&self.w.banks[lb].key, true)) else { continue };
+                            let fl = floor_u64(&av);
+                            for w_amt in [fl / 8, fl / 2 + 1] {
+                                // a repayment worth the withdrawal less a 3 % premium (under the 5 % minimum cap), never the whole debt
+                                let r = rf::qi(w_amt as i128) * ua.clone() / ul.clone() * rf::qfrac(100, 103);
+                                let r_amt = floor_u64(&r).min(floor_u64(&lv).saturating_sub(1)).max(1);
+                                v.push(Action::Receivership { liquidator: lq, liquidatee: le, asset: ab, liab: lb, w_amt, r_amt });
+                            }
+                        }
+                    }
+                }
+            }
+        }
         if al.retag {
             for &b in &al.banks {
                 if let Some(bank) = world::try_bank(s, &self.w.banks[b].key) {
@@ -427,6 +465,7 @@ pub fn action_kind(a: &Action) -> &'static str {
         Action::Repay { .. } => "repay",
         Action::CloseBalance { .. } => "close_balance",
         Action::Liquidate { .. } => "liquidate",
+        Action::Receivership { .. } => "receivership",
         Action::Bankruptcy { .. } => "bankruptcy",
         Action::Accrue { .. } => "accrue",
         Action::PulsePriceCache { .. } => "pulse_price_cache",
@@ -550,7 +589,7 @@ impl StepOracle for SolvencyOracle {
                 continue;
             }
             let ops = match c.a {
-                Action::Liquidate { .. } => 3,
+                Action::Liquidate { .. } | Action::Receivership { .. } => 3,
                 _ => 1,
             };
             let allow = solvency_allowance(pn, qn, c.post.now, ops, self.safety);
